@@ -70,8 +70,9 @@ def layout_flat(tree):
 
 
 class Gen:
-    def __init__(self, rng, params, with_forall=True, with_numeric=True, with_consts=True, with_shadow=False):
+    def __init__(self, rng, params, with_forall=True, with_numeric=True, with_consts=True, with_shadow=False, shadow_p=0.15):
         self.with_shadow = with_shadow
+        self.shadow_p = shadow_p
         self.rng = rng
         self.params = params  # [[name,type]...]
         self.with_forall = with_forall
@@ -254,7 +255,7 @@ class Gen:
             elif self.with_forall:
                 v = "?z"
                 ty = rng.choice(["t1", "t2", "object"])
-                if self.with_shadow and self.params and rng.random() < 0.15:
+                if self.with_shadow and self.params and rng.random() < self.shadow_p:
                     v = rng.choice(self.params)[0]      # the bound variable re-uses (shadows) a parameter's name
                 ex = [[v, ty]]
                 items.append(L(S("forall"), L(S(v), S("-"), S(ty)), L(S("when"), self.cond(ex), self.body(ex))))
